@@ -12,7 +12,9 @@ type VarGenerator struct {
 
 func NewVarGenerator() VarGenerator {
 	// "a" is left out: the collection of nodes bound to a variable is named <variable>s and "as" is a Rego keyword
-	vs := []string{"x", "y", "z", "p", "q", "r", "s", "t", "u", "v", "w", "b", "c", "d", "e", "f", "g", "h", "i", "j", "k", "l", "m", "n", "o"}
+	// "n" is left out: the code generated for nested constraints uses n as a local of its comprehensions, which an
+	// enclosing quantified variable of the same name would capture
+	vs := []string{"x", "y", "z", "p", "q", "r", "s", "t", "u", "v", "w", "b", "c", "d", "e", "f", "g", "h", "i", "j", "k", "l", "m", "o"}
 	return VarGenerator{
 		vars:    vs,
 		counter: 0,
